@@ -199,9 +199,37 @@ func c20Doc(r *rng.R, allowMeta bool, keepTight int, boundaries map[string]int, 
 			tb, _ := d.AddTable(&document.TableConfig{Rows: rows, Cols: cols, Width: 6000, Data: data})
 			if tb != nil && rows > 1 && r.Chance(1, 3) {
 				// a formatted run in a body cell
-				t2, f2 := mk("cell", true)
+				// (the cell text API does not take strike-through from a TextFormat: cell runs are generated without it)
+				noStrike := func(t xTok, f *document.TextFormat) (xTok, *document.TextFormat) {
+					t.strike = false
+					if f != nil {
+						f.Strike = false
+						if !f.Bold && !f.Italic && f.FontFamily == "" {
+							f = nil
+						}
+					}
+					return t, f
+				}
+				t2, f2 := noStrike(mk("cell", true))
 				cr, cc := r.Range(1, rows-1), r.Intn(cols)
-				if tb.AddCellFormattedText(cr, cc, " "+t2.text, f2) == nil {
+				sep := " "
+				wantTight := r.Chance(1, 3)
+				prev, f0 := noStrike(mk("cell", true)) // drawn in every variant so that the diagnosis variants see the same random stream
+				if wantTight && keepTight < 0 {
+					// the cell's own text is replaced by a formatted run and the new run touches it: a cell that consists of touching
+					// spans only (boundaries as in paragraphs: letters or digits on both sides)
+					alnum := func(b byte) bool { return b >= '0' && b <= '9' || b >= 'a' && b <= 'z' || b >= 'A' && b <= 'Z' }
+					if alnum(prev.text[len(prev.text)-1]) && alnum(t2.text[0]) && fmtLetters(prev) != fmtLetters(t2) && touchingReason(fmtLetters(prev)+"|"+fmtLetters(t2)) == "" {
+						if tb.SetCellFormattedText(cr, cc, prev.text, f0) == nil {
+							at := len(toks) - rows*cols + cr*cols + cc
+							toks[at] = prev
+							sep = ""
+							boundaries["tight-in-cell"]++
+							boundaries["tight-in-cell:"+fmtLetters(prev)+"|"+fmtLetters(t2)]++
+						}
+					}
+				}
+				if tb.AddCellFormattedText(cr, cc, sep+t2.text, f2) == nil {
 					// the new run follows the text of its cell: the ledger keeps body order
 					at := len(toks) - rows*cols + cr*cols + cc + 1
 					toks = append(toks[:at], append([]xTok{t2}, toks[at:]...)...)
